@@ -20,8 +20,16 @@ Lemma m_single_spec f r saved ys :
 Proof. intros ->. reflexivity. Qed.
 
 Lemma m_lazy_spec f r saved ys :
-  r = Some ys -> strip1 (m_lazy f r saved) = s_lazy f ys.
-Proof. intros ->. reflexivity. Qed.
+  r = Some ys ->
+  ssorted (map ycoord ys) = true ->
+  Forall (fun y => sorted_t (ypay y) = true /\ is_empty (f_d f) (ypay y) = false) ys ->
+  strip1 (m_lazy f r saved) = s_lazy f ys.
+Proof.
+  intros -> Hs Hfit. unfold m_lazy, s_lazy, s_obs, m_fromlazy. cbn [strip1 V_res option_map].
+  unfold V_content.
+  destruct (from_lazy_spec (f_d f) (dflt (f_d f) (f_es f)) ys Hs Hfit) as [_ Hc].
+  rewrite Hc. reflexivity.
+Qed.
 
 Lemma m_shape_spec f cs ref :
   ssorted (map fst (f_es f)) = true ->
@@ -52,13 +60,14 @@ Qed.
 
 Lemma model_op_spec f others o :
   ssorted (map fst (f_es f)) = true ->
+  pay_sorted (f_es f) ->
   all_sorted others ->
   wf_op f o = true ->
   strip1 (model_op f others o) = spec_op f others o.
 Proof.
-  intros Hs Ho Hwf.
+  intros Hs Hps Ho Hwf.
   assert (Hall : all_sorted (f_es f :: others)) by (constructor; assumption).
-  destruct o as [sp|lo hi sp|sp|ref|ref|lo hi step ref|sp|ref|ref|lo hi step ref|k b iv sp|p sp];
+  destruct o as [sp|lo hi sp|sp|ref|ref|lo hi step ref|sp|ref|ref|lo hi step ref|k b iv sp|p sp|k b iv lo hi];
     cbn [model_op spec_op].
   - apply m_single_spec. unfold iter_occupancy. apply iter_range_spec; assumption.
   - apply m_single_spec. apply iter_range_spec; assumption.
@@ -70,9 +79,17 @@ Proof.
   - apply (m_co_spec f others _ ref Hall).
   - apply (m_co_spec f others _ ref Hall).
   - apply (m_co_spec f others _ ref Hall).
-  - apply m_lazy_spec. apply project_spec; assumption.
-  - apply m_lazy_spec. cbn [wf_op] in Hwf. apply andb_true_iff in Hwf. destruct Hwf as [_ Hsp].
-    apply prune_spec; assumption.
+  - apply m_lazy_spec.
+    + apply project_spec; assumption.
+    + apply spec_project_sorted; [exact Hs|].
+      cbn [wf_op] in Hwf. apply andb_true_iff in Hwf. destruct Hwf as [Hk _]. lia.
+    + apply spec_project_fit. exact Hps.
+  - apply m_lazy_spec.
+    + cbn [wf_op] in Hwf. apply andb_true_iff in Hwf. destruct Hwf as [_ Hsp].
+      apply prune_spec; assumption.
+    + apply spec_prune_sorted. exact Hs.
+    + apply spec_prune_fit. exact Hps.
+  - apply m_single_spec. apply project_window_spec; [exact Hs|]. cbn [wf_op] in Hwf. lia.
 Qed.
 
 Lemma forallb_all_sorted fs :
@@ -88,6 +105,9 @@ Proof.
   intros Hwf. unfold c07_wf in Hwf.
   apply andb_true_iff in Hwf. destruct Hwf as [Hwf Hops].
   apply andb_true_iff in Hwf. destruct Hwf as [Hs Ho].
+  apply andb_true_iff in Hs. destruct Hs as [Hs Hps].
+  assert (Hps' : pay_sorted (f_es (k_fiber c))).
+  { unfold pay_sorted. apply Forall_forall. intros ct Hin. rewrite forallb_forall in Hps. auto. }
   apply forallb_all_sorted in Ho.
   cbn [holds model c07_checker]. unfold c07_holds. apply V_eqb_spec.
   unfold c07_model, c07_spec. rewrite strip_saved_Vl. unfold Vl. f_equal.
